@@ -13,8 +13,11 @@ document.  Projection: the set of reported places, their multiplicity, the re-re
 The mirrored search models the repaired source (fix: commits for a Set inside a list, the Set arm of the expansion,
 anchors beneath a parent reported whole); the pinned designs are kept as configurations that TLC must reject
 (MC_PathsSearch_pin_*).  Comparisons the documentation leaves open make a case informational.
-Merge keys and anchored keys are outside the YData model: curated documents of that kind are judged by relations
-only (soundness by direct inspection of the node a path resolves to, re-resolution, no repeats, the alias options).
+Anchored / aliased keys and merge keys are modelled by a side structure next to the YData node table (spec/YPathsSearch.tla:
+kanchor, kalias, merges, merged); MC_PathsSearch derives such documents from the generator's (family "side"), they are written
+as YAML by pathssearchobs.concretise_side, checked on load to have the modelled shape, and replayed like every other family
+(the search_anchor trace then includes the key searches).  A few larger curated documents of that kind are still judged by
+relations only (soundness by direct inspection of the node a path resolves to, re-resolution, no repeats, the alias options).
 """
 import collections
 import json
@@ -32,8 +35,8 @@ MAX_KEEP = 4        # violation records kept per signature and work item (all ar
 def load_corpus(path):
     docs = collections.OrderedDict()
     for l in core.read_csv_json_lines(path):
-        k = json.dumps(l["doc"], sort_keys=True)
-        e = docs.setdefault(k, {"doc": l["doc"], "res": [], "cases": []})
+        k = json.dumps([l["doc"], l.get("sx")], sort_keys=True)
+        e = docs.setdefault(k, {"doc": l["doc"], "sx": l.get("sx"), "res": [], "cases": []})
         e["res"].extend(l["res"])
         e["cases"].extend(l["cases"])
     return list(docs.values())
@@ -55,9 +58,17 @@ def tlc_corpus(ctx, cfg, env=None, name=None):
 
 
 # --------------------------------------------------------------------------- judging one search
-def node_kind(doc, i):
+def node_kind(doc, i, sx=None):
+    if sx and i > len(doc):
+        return "merge-ref"
     if not 1 <= i <= len(doc):
         return "nowhere"
+    if sx and i in sx["merged"]:
+        return "merged-pair"
+    if sx and i in sx["kalias"]:
+        return "aliased-key"
+    if sx and sx["kanchor"][i - 1]:
+        return "anchored-key"
     n = doc[i - 1]
     if n["t"] == "bool" and n["anchor"]:
         return "anchored-bool"      # ruamel loads an anchored boolean as ScalarBoolean, whose text is "1"/"0"
@@ -92,7 +103,7 @@ def assign_places(rv, paths):
         if not r["same"]:
             problems.append(("reresolve", "several-nodes", "printed path %r resolves to different nodes at %s" % (text, ids)))
         elif len(ids) > 1:
-            par = {rv.loc.doc[i - 1]["par"] for i in ids}
+            par = {rv.loc.doc[i - 1]["par"] if i <= len(rv.loc.doc) else -i for i in ids}
             if "&" not in text or len(par) != 1:
                 problems.append(("reresolve", "several-places", "printed path %r resolves %d times (%s)" % (text, len(ids), ids)))
         if c > len(ids):
@@ -117,13 +128,13 @@ def judge_search(doc, resmap, rv, case, expr, sep, run, stats):
     got = sorted(order)
     if len(set(got)) != len(got) and not any(p[0] == "repeat" for p in problems):
         dup = sorted({i for i in got if got.count(i) > 1})
-        problems.append(("repeat", node_kind(doc, dup[0]), "place(s) %s reported more than once (paths %s)" % (dup, run["paths"])))
+        problems.append(("repeat", node_kind(doc, dup[0], rv.sx), "place(s) %s reported more than once (paths %s)" % (dup, run["paths"])))
     missing = [i for i in exp if i not in got]
     extra = [i for i in sorted(set(got)) if i not in exp]
     if missing:
-        problems.append(("complete", node_kind(doc, missing[0]), "expected places %s, reported %s (paths %s): missing %s" % (exp, got, run["paths"], missing)))
+        problems.append(("complete", node_kind(doc, missing[0], rv.sx), "expected places %s, reported %s (paths %s): missing %s" % (exp, got, run["paths"], missing)))
     if extra:
-        problems.append(("sound", node_kind(doc, extra[0]), "expected places %s, reported %s (paths %s): not expected %s" % (exp, got, run["paths"], extra)))
+        problems.append(("sound", node_kind(doc, extra[0], rv.sx), "expected places %s, reported %s (paths %s): not expected %s" % (exp, got, run["paths"], extra)))
     # binding evidence about the mirror (never a verdict): yield order, the search_anchor trace, the printed text
     if order != list(case["mir"]):
         stats["mirror_result_drift"] += 1
@@ -156,20 +167,37 @@ def seps_for(case, expr, quick, seed):
     return (["."], []) if h == 0 else ([], ["/"])
 
 
+def doc_text(doc, sx, style, plain, seed=0):
+    """YAML text of a case document; documents with a side structure (anchored keys, merge keys) by pathssearchobs."""
+    from harness import absdoc, pathssearchobs as pso
+    if pso.has_side(sx):
+        return pso.concretise_side(doc, sx, style, plain, merge_first=(seed + len(doc)) % 2 == 0)
+    return absdoc.concretise(doc, style, plain)
+
+
 def judge_doc(item):
     from harness import absdoc, pathssearchobs as pso
-    doc, res, cases, variants, quick, seed = item
+    doc, sx, res, cases, variants, quick, seed = item
+    side = pso.has_side(sx)
     viol = []
     kept = collections.Counter()
     stats = collections.Counter()
     nontrivial = set()
     resmap = {r["i"]: r for r in res}
     for style, plain in variants:
-        text = absdoc.concretise(doc, style, plain)
+        text = doc_text(doc, sx, style, plain, seed)
         data = absdoc.load(text)
-        rv = pso.Resolver(data)
+        if side and pso.merge_unfilled(data):
+            stats["side_documents_loader_leaves_merge_unfilled"] += 1
+            continue
+        rv = pso.Resolver(data, sx if side else None)
         if not absdoc.same_table(rv.loc.doc, doc):
             raise core.MachineryError("concretisation does not reload to the abstract document: %r" % text)
+        if side:
+            bad = pso.shape_problems(data, doc, sx)
+            if bad:
+                raise core.MachineryError("the loaded document does not have the modelled keys/merges (%s): %r" % ("; ".join(bad), text))
+            stats["side_documents"] += 1
         # T1 on the real code: every position's printed path as the model prints it resolves to its places
         for r in res:
             for sepname in ("dot", "sl"):
@@ -189,7 +217,7 @@ def judge_doc(item):
                     if kept[sig] < MAX_KEEP:
                         kept[sig] += 1
                         viol.append((sig, "expression %r is turned into %s, it spells %s" % (expr, got, want),
-                                     {"kind": "case", "doc": doc, "style": style, "plain": plain, "case": c, "expr": expr, "sep": "."}))
+                                     {"kind": "case", "doc": doc, "sx": sx, "seed": seed, "style": style, "plain": plain, "case": c, "expr": expr, "sep": "."}))
                     continue
                 a, b = seps_for(c, expr, quick, seed)
                 for sep in a + b:
@@ -213,7 +241,7 @@ def judge_doc(item):
                         if kept[sig] < MAX_KEEP:
                             kept[sig] += 1
                             viol.append((sig, "doc %s search %s %s (sep %s): %s" % (text.replace("\n", "|"), expr, pso.shape(c["o"]), sep, pr[2]),
-                                         {"kind": "case", "doc": doc, "style": style, "plain": plain, "case": c, "expr": expr, "sep": sep}))
+                                         {"kind": "case", "doc": doc, "sx": sx, "seed": seed, "style": style, "plain": plain, "case": c, "expr": expr, "sep": sep}))
         if not absdoc.same_table(absdoc.abstract(data), doc):
             stats["documents_changed"] += 1
     stats["distinct_nontrivial"] = len(nontrivial)
@@ -458,7 +486,7 @@ def cli_sample(ctx, corpus, rng, count):
         c = rng.choice(e["cases"])
         expr = rng.choice(c["x"])
         sep = rng.choice([".", "/"])
-        text = absdoc.concretise(e["doc"], "block", False)
+        text = doc_text(e["doc"], e.get("sx"), "block", False)
         with open(f, "w") as fh:
             fh.write(text)
         data = absdoc.load(text)
@@ -484,8 +512,8 @@ def selftest(corpus):
         for c in e["cases"]:
             if c["info"] or c["cls"] or not c["exp"] or len(doc) < 3:
                 continue
-            data = absdoc.load(absdoc.concretise(doc, "block", False))
-            rv = pso.Resolver(data)
+            data = absdoc.load(doc_text(doc, e.get("sx"), "block", False))
+            rv = pso.Resolver(data, e.get("sx"))
             expr = c["x"][0]
             run = pso.run_search(data, expr, c["o"], ".")
             st = collections.Counter()
@@ -509,14 +537,16 @@ def run(ctx):
     from harness import pathssearchobs as pso
     if ctx.quick:
         plan = [("MC_PathsSearch_q.cfg", [ctx.seed % 3], False), ("MC_PathsSearch_punct.cfg", [ctx.seed % 2], False),
-                ("MC_PathsSearch_qn.cfg", [0], False)]
+                ("MC_PathsSearch_qn.cfg", [0], False),
+                ("MC_PathsSearch_qs.cfg", [ctx.seed % 3], False), ("MC_PathsSearch_qm.cfg", [(ctx.seed + 1) % 3], False)]
     else:
         # (cfg, shards, replay every search in both notations? otherwise the notation alternates from search to search)
-        plan = [("MC_PathsSearch_tn.cfg", [0], True), ("MC_PathsSearch_t2a.cfg", [0], True), ("MC_PathsSearch_punct_t.cfg", [0, 1], True),
+        plan = [("MC_PathsSearch_ts.cfg", [0, 1], False), ("MC_PathsSearch_tm.cfg", [0], False),
+                ("MC_PathsSearch_tn.cfg", [0], True), ("MC_PathsSearch_t2a.cfg", [0], True), ("MC_PathsSearch_punct_t.cfg", [0, 1], True),
                 ("MC_PathsSearch_t5.cfg", [ctx.seed % 2], True), ("MC_PathsSearch_t.cfg", list(range(8)), False)]
     # the pinned designs (before the fix: commits) must violate the theorems: one per quick run, all in the thorough tier
-    pins = ["MC_PathsSearch_pin_set.cfg", "MC_PathsSearch_pin_expand.cfg", "MC_PathsSearch_pin_alias.cfg"]
-    pins = [pins[ctx.seed % 3]] if ctx.quick else pins
+    pins = ["MC_PathsSearch_pin_akey.cfg", "MC_PathsSearch_pin_set.cfg", "MC_PathsSearch_pin_expand.cfg", "MC_PathsSearch_pin_alias.cfg"]
+    pins = [pins[ctx.seed % 4]] if ctx.quick else pins
     for cfg in pins:
         f = ctx.path(cfg + ".cases")
         r = core.run_tlc(ctx, "MC_PathsSearch", cfg, env={"CASES_OUT": f, "SHARD": "0"}, timeout=1800)
@@ -532,9 +562,9 @@ def run(ctx):
             corpus = tlc_corpus(ctx, cfg, {"SHARD": str(sh)}, name="%s_s%d" % (cfg.replace(".cfg", ""), sh))
             ndocs += len(corpus)
             ngroups += sum(len(e["cases"]) for e in corpus)
-            if len(keep) < 3000:
-                keep.extend(corpus[:1500])
-            items = [(e["doc"], e["res"], e["cases"], querycorpus.variant_of(e["doc"], ctx.seed, True), not both, ctx.seed) for e in corpus]
+            if len(keep) < 6000:
+                keep.extend(corpus[:1000])
+            items = [(e["doc"], e.get("sx"), e["res"], e["cases"], querycorpus.variant_of(e["doc"], ctx.seed, True), not both, ctx.seed) for e in corpus]
             del corpus
             for viol, stats in querycorpus.pmap(_work, items, chunk=12):
                 tot.update(stats)
@@ -584,6 +614,9 @@ def run(ctx):
         "binding_selftest": {"corrupted_records": tried, "rejected": caught},
         "pinned_designs_rejected_by_tlc": [c.replace(".cfg", "") for c in pins],
         "documents_changed_by_search": tot["documents_changed"],
+        "side_family": {"documents_replayed": tot["side_documents"],
+                        "texts_the_loader_fills_differently_skipped": tot["side_documents_loader_leaves_merge_unfilled"],
+                        "shape_checked_on_load": "node table incl. merged-in pairs, key anchors, aliased keys (same key object), merge references (same hash object)"},
         "exhaustive": True,
         "samples": [sample] if sample else [],
         "trusted_base": ["TLC 1.8", "spec/YPathsSearch.tla Matching/Expected as the reading of the yaml-paths usage text", "spec/YCompare.tla (bound by C12)",
@@ -605,8 +638,8 @@ def replay(path):
         out = ["%s :: %s" % p for p in problems]
     elif rp.get("kind") == "case":
         doc, c = rp["doc"], rp["case"]
-        data = absdoc.load(absdoc.concretise(doc, rp["style"], rp["plain"]))
-        rv = pso.Resolver(data)
+        data = absdoc.load(doc_text(doc, rp.get("sx"), rp["style"], rp["plain"], rp.get("seed", 0)))
+        rv = pso.Resolver(data, rp.get("sx"))
         _, got = pso.terms_of(rp["expr"])
         if got != pso.parse_expr(rp["expr"]):
             out.append("terms :: expression %r is turned into %s" % (rp["expr"], got))
